@@ -112,11 +112,11 @@ func (x *Exec) appendOp(st *State, ins ssa.Value, c *ssa.CallCommon, args []Valu
 		// unchanged outside the appended range
 		t.assume(fmt.Sprintf("(forall ((i Int)) (! (=> (or (< i %s) (>= i (+ %s %s))) (= (select %s i) (select (select %s %s) i))) :pattern ((select %s i))))", base, base, n, na, h, arr, na))
 		if src.K == VSlice {
-			t.assume(fmt.Sprintf("(forall ((i Int)) (! (=> (and (<= 0 i) (< i %s)) (= (select %s (+ %s i)) (select (select %s %s) (+ %s i)))) :pattern ((select %s (+ %s i)))))", n, na, base, h, src.Arr, src.Off, na, base))
+			t.assume(mkQuant("forall", "qi", "Int", fmt.Sprintf("(and (<= 0 qi) (< qi %s))", n), fmt.Sprintf("(= (select %s (+ %s qi)) (select (select %s %s) (+ %s qi)))", na, base, h, src.Arr, src.Off)))
 			// single element: make it ground
 			t.assume(fmt.Sprintf("(=> (>= %s 1) (= (select %s %s) (select (select %s %s) %s)))", n, na, base, h, src.Arr, src.Off))
 		} else {
-			t.assume(fmt.Sprintf("(forall ((i Int)) (! (=> (and (<= 0 i) (< i %s)) (= (select %s (+ %s i)) (sat %s i))) :pattern ((select %s (+ %s i)))))", n, na, base, src.T, na, base))
+			t.assume(mkQuant("forall", "qi", "Int", fmt.Sprintf("(and (<= 0 qi) (< qi %s))", n), fmt.Sprintf("(= (select %s (+ %s qi)) (sat %s qi))", na, base, src.T)))
 		}
 		t.heapSet(key, fmt.Sprintf("(store %s %s %s)", h, arr, na))
 	}
@@ -175,7 +175,7 @@ func (x *Exec) copyLeaf(t *State, key, sort string, src Value, dstArr, dstOff, n
 	na := t.freshName("arr")
 	t.declare(na, "(Array Int "+sort+")")
 	t.assume(fmt.Sprintf("(forall ((i Int)) (! (=> (or (< i %s) (>= i (+ %s %s))) (= (select %s i) (select (select %s %s) i))) :pattern ((select %s i))))", dstOff, dstOff, n, na, h, dstArr, na))
-	t.assume(fmt.Sprintf("(forall ((i Int)) (! (=> (and (<= 0 i) (< i %s)) (= (select %s (+ %s i)) (select (select %s %s) (+ %s i)))) :pattern ((select %s (+ %s i)))))", n, na, dstOff, h, src.Arr, src.Off, na, dstOff))
+	t.assume(mkQuant("forall", "qi", "Int", fmt.Sprintf("(and (<= 0 qi) (< qi %s))", n), fmt.Sprintf("(= (select %s (+ %s qi)) (select (select %s %s) (+ %s qi)))", na, dstOff, h, src.Arr, src.Off)))
 	t.assume(fmt.Sprintf("(=> (>= %s 1) (= (select %s %s) (select (select %s %s) %s)))", n, na, dstOff, h, src.Arr, src.Off))
 	t.heapSet(key, fmt.Sprintf("(store %s %s %s)", h, dstArr, na))
 }
@@ -211,9 +211,9 @@ func (x *Exec) copyOp(st *State, ins ssa.Value, c *ssa.CallCommon, args []Value)
 	st.declare(na, "(Array Int "+scalarSort(ek)+")")
 	st.assume(fmt.Sprintf("(forall ((i Int)) (! (=> (or (< i %s) (>= i (+ %s %s))) (= (select %s i) (select (select %s %s) i))) :pattern ((select %s i))))", dst.Off, dst.Off, n.T, na, h, dst.Arr, na))
 	if src.K == VSlice {
-		st.assume(fmt.Sprintf("(forall ((i Int)) (! (=> (and (<= 0 i) (< i %s)) (= (select %s (+ %s i)) (select (select %s %s) (+ %s i)))) :pattern ((select %s (+ %s i)))))", n.T, na, dst.Off, h, src.Arr, src.Off, na, dst.Off))
+		st.assume(mkQuant("forall", "qi", "Int", fmt.Sprintf("(and (<= 0 qi) (< qi %s))", n.T), fmt.Sprintf("(= (select %s (+ %s qi)) (select (select %s %s) (+ %s qi)))", na, dst.Off, h, src.Arr, src.Off)))
 	} else {
-		st.assume(fmt.Sprintf("(forall ((i Int)) (! (=> (and (<= 0 i) (< i %s)) (= (select %s (+ %s i)) (sat %s i))) :pattern ((select %s (+ %s i)))))", n.T, na, dst.Off, src.T, na, dst.Off))
+		st.assume(mkQuant("forall", "qi", "Int", fmt.Sprintf("(and (<= 0 qi) (< qi %s))", n.T), fmt.Sprintf("(= (select %s (+ %s qi)) (sat %s qi))", na, dst.Off, src.T)))
 	}
 	st.heapSet(key, fmt.Sprintf("(store %s %s %s)", h, dst.Arr, na))
 	x.frozenCheck(st, ins.(ssa.Instruction), dst, "0", n.T)
